@@ -526,6 +526,69 @@ func (u *universe) build() {
 	}
 }
 
+// cheap change detector: lstat of every node the universe was built with (directories included, so that a
+// creation or removal anywhere shows as a changed directory time).  Only when a signature differs is the
+// full snapshot taken and compared.
+type sig struct {
+	mode  os.FileMode
+	size  int64
+	mtime int64
+	uid   uint32
+	gid   uint32
+	ino   uint64
+	ok    bool
+}
+
+func sigOf(p string) sig {
+	fi, err := os.Lstat(p)
+	if err != nil {
+		return sig{}
+	}
+
+	g := sig{mode: fi.Mode(), size: fi.Size(), mtime: fi.ModTime().UnixNano(), ok: true}
+	if st, ok := fi.Sys().(*syscall.Stat_t); ok {
+		g.uid, g.gid, g.ino = st.Uid, st.Gid, st.Ino
+	}
+
+	if fi.IsDir() {
+		g.size = 0
+	}
+
+	return g
+}
+
+func (u *universe) paths() []string {
+	out := []string{}
+
+	for i, n := range u.nodes {
+		out = append(out, pathOf(n.P))
+		if n.K == "dir" {
+			out = append(out, filepath.Join(pathOf(n.P), fmt.Sprintf("zq%02d", i)))
+		}
+	}
+
+	return out
+}
+
+func sigsOf(paths []string) []sig {
+	out := make([]sig, len(paths))
+	for i, p := range paths {
+		out[i] = sigOf(p)
+	}
+
+	return out
+}
+
+func sameSigs(a, b []sig) bool {
+	for i := range a {
+		if a[i] != b[i] {
+			return false
+		}
+	}
+
+	return true
+}
+
 type entry struct {
 	kind    string
 	mode    os.FileMode
@@ -880,6 +943,8 @@ func TestVerifSandbox(t *testing.T) {
 		u.build()
 
 		before := snapshot()
+		paths := u.paths()
+		sigs := sigsOf(paths)
 		path := textOf(k.Sp)
 		rec := outRec{ID: k.ID, M: mode}
 		byEff := map[string]*group{}
@@ -956,14 +1021,18 @@ func TestVerifSandbox(t *testing.T) {
 				fmt.Printf("---- %s %q\n%s\n%s\n", c.ID, path, src, output)
 			}
 
-			after := snapshot()
-			effs := append(diff(before, after), u.observed(output)...)
-			effs = normEffs(effs)
+			effs := u.observed(output)
 
-			if len(diff(before, after)) > 0 {
+			if !sameSigs(sigs, sigsOf(paths)) {
+				effs = append(effs, diff(before, snapshot())...)
+
 				u.build()
+
 				before = snapshot()
+				sigs = sigsOf(paths)
 			}
+
+			effs = normEffs(effs)
 
 			tObs += time.Since(t1)
 
